@@ -9,8 +9,102 @@ structure Leaf where
   ty : FTy
   val : PyVal
 
+/-! ### class descriptors and whole dictionaries (prefix token grammars, see harness/serial_corr.py) -/
+
+/-- `L k t1..tk` leaf | `A n <desc>` struct array | `( size {F name off <desc>}* )` struct.  Absolute-in-struct
+offsets become paddings; an offset that lies before the end of the previous field is refused (`none`). -/
+def parseDesc : Nat → List String → Option (Desc × List String)
+  | 0, _ => none
+  | fuel + 1, ts =>
+    match ts with
+    | "L" :: k :: r => some (.leaf (ftyOf (r.take (natOf k))), r.drop (natOf k))
+    | "A" :: n :: r => (parseDesc fuel r).map fun (e, r') => (.sarr (natOf n) e, r')
+    | "(" :: size :: r => parseFields fuel (natOf size) 0 r
+    | _ => none
+where
+  parseFields : Nat → Nat → Nat → List String → Option (Desc × List String)
+    | 0, _, _, _ => none
+    | fuel + 1, size, cur, ts =>
+      match ts with
+      | ")" :: r => if cur ≤ size then some (.strct .nil (size - cur), r) else none
+      | "F" :: name :: off :: r =>
+        if natOf off < cur then none else
+          match parseDesc fuel r with
+          | none => none
+          | some (d, r') =>
+            match parseFields fuel size (natOf off + d.size) r' with
+            | some (.strct fs tail, r'') => some (.strct (.cons name (natOf off - cur) d fs) tail, r'')
+            | _ => none
+      | _ => none
+
+/-- `V k t1..tk` leaf value | `[ <val>* ]` list of dicts | `{ {K name <val>}* }` dict -/
+def parseVal : Nat → List String → Option (Val × List String)
+  | 0, _ => none
+  | fuel + 1, ts =>
+    match ts with
+    | "V" :: k :: r => some (.leaf (valOf (r.take (natOf k))), r.drop (natOf k))
+    | "[" :: r => (parseList fuel r).map fun (xs, r') => (.list xs, r')
+    | "{" :: r => (parseKVs fuel r).map fun (kvs, r') => (.dict kvs, r')
+    | _ => none
+where
+  parseList : Nat → List String → Option (Vals × List String)
+    | 0, _ => none
+    | fuel + 1, ts =>
+      match ts with
+      | "]" :: r => some (.nil, r)
+      | _ =>
+        match parseVal fuel ts with
+        | none => none
+        | some (v, r) => (parseList fuel r).map fun (vs, r') => (.cons v vs, r')
+  parseKVs : Nat → List String → Option (KVs × List String)
+    | 0, _ => none
+    | fuel + 1, ts =>
+      match ts with
+      | "}" :: r => some (.nil, r)
+      | "K" :: name :: r =>
+        match parseVal fuel r with
+        | none => none
+        | some (v, r') => (parseKVs fuel r').map fun (kvs, r'') => (.cons name v kvs, r'')
+      | _ => none
+
+def showScalar : Scalar → String
+  | .int n => s!"{n}" | .bool b => s!"{b}" | .flt b => "f" ++ showHex (toLE 8 b)
+  | .str cs => "s" ++ toString cs | .bytes bs => "y" ++ showHex bs | .other => "?"
+  | .cdata _ raw => "c" ++ showHex raw | .strct t raw => s!"t{t}:" ++ showHex raw
+
+def showPyVal : PyVal → String
+  | .sc s => showScalar s
+  | .seq _ xs => "[" ++ String.intercalate "," (xs.map showScalar) ++ "]"
+  | .arr _ _ n _ => s!"<array {n}>"
+
+/- one-line rendering for diff messages -/
+mutual
+def showVal : Val → String
+  | .leaf v => showPyVal v
+  | .dict kvs => "{" ++ showKVs kvs ++ "}"
+  | .list xs => "[" ++ showVals xs ++ "]"
+def showKVs : KVs → String
+  | .nil => ""
+  | .cons k v r => k ++ ":" ++ showVal v ++ "," ++ showKVs r
+def showVals : Vals → String
+  | .nil => ""
+  | .cons v r => showVal v ++ "," ++ showVals r
+end
+
+def showDErr : DErr → String
+  | .field e => showErr e | .key => "KeyError" | .index => "IndexError" | .shape => "shape"
+
+/-- one `from_dict` probe on a (possibly altered) dictionary: what the real code returned -/
+structure FdProbe where
+  name : String
+  impl : Option Bytes
+  val : Option Val
+
 structure Case where
   id : String := ""
+  desc : Option (Option Desc) := none
+  dict : Option (Option Val) := none
+  probes : List FdProbe := []
   leaves : List Leaf := []
   b0 : Bytes := []
   b0hex : String := ""
@@ -28,7 +122,7 @@ def leafCorr (c : Case) (l : Leaf) : List String :=
   let sz := l.ty.size
   let mine := toDictLeaf l.ty (sliceB c.b0 l.off sz)
   let d1 := if mine == l.val then [] else
-    [s!"{c.id} CORR diff toDict@{l.off} model=[{repr mine}] impl=[{repr l.val}]"]
+    [s!"{c.id} CORR diff toDict@{l.off} model=[{showPyVal mine}] impl=[{showPyVal l.val}]"]
   let d2 := match c.bd with
     | none => []
     | some bd =>
@@ -37,8 +131,39 @@ def leafCorr (c : Case) (l : Leaf) : List String :=
         [s!"{c.id} CORR diff fromDict@{l.off} model=[{showHex mb} {repr me}] impl=[{showHex (sliceB bd l.off sz)}]"]
   d1 ++ d2
 
+/-- whole-class correspondence: `to_dict()` of the real code = `toDict` of the model on the same bytes; `from_dict` of
+the real code on its own dictionary (and on the altered ones) = `fromDict`; the bytes the real code built satisfy
+`wfB` (the hypothesis of `dict_roundtrip`) -/
+def wholeCorr (c : Case) : List String :=
+  match c.desc with
+  | none => []
+  | some none => [s!"{c.id} CORR diff desc: the class layout is not a sequence of increasing offsets"]
+  | some (some d) =>
+    let d0 := if d.size == c.b0.length then [] else
+      [s!"{c.id} CORR diff desc: model size {d.size} impl sizeof {c.b0.length}"]
+    let d1 := match c.dict with
+      | none => []
+      | some none => [s!"{c.id} CORR diff toDictWhole: unparsable dictionary"]
+      | some (some v) =>
+        if toDict d c.b0 == v then [] else
+          [s!"{c.id} CORR diff toDictWhole model=[{showVal (toDict d c.b0)}] impl=[{showVal v}]"]
+    let d2 := if wfB d c.b0 then [] else
+      [s!"{c.id} CORR diff wf: the bytes built through the field API are outside WFD (hypothesis of dict_roundtrip)"]
+    let d3 := c.probes.reverse.flatMap fun p =>
+      match p.val with
+      | none => [s!"{c.id} CORR diff fromDictWhole/{p.name}: unparsable dictionary"]
+      | some v =>
+        let (mb, me) := fromDict d v
+        match p.impl, me with
+        | none, some _ => []
+        | some ib, none => if mb == ib then [] else
+            [s!"{c.id} CORR diff fromDictWhole/{p.name} model=[{showHex mb}] impl=[{showHex ib}]"]
+        | none, none => [s!"{c.id} CORR diff fromDictWhole/{p.name} model=[{showHex mb}] impl=[err]"]
+        | some ib, some e => [s!"{c.id} CORR diff fromDictWhole/{p.name} model=[err {showDErr e}] impl=[{showHex ib}]"]
+    d0 ++ d1 ++ d2 ++ d3
+
 def finish (c : Case) : List String :=
-  let diffs := c.leaves.reverse.flatMap (leafCorr c)
+  let diffs := wholeCorr c ++ c.leaves.reverse.flatMap (leafCorr c)
   let corr := if diffs.isEmpty then [s!"{c.id} CORR ok"] else diffs.take 3
   let o : Pyrtma.Serial.Obs := { orig := c.b0, trips := c.trips, copyShares := c.copyShares, vers := c.vers }
   let prop := match firstFalse (Pyrtma.Serial.clauses o) with
@@ -54,6 +179,14 @@ def step (st : Case × List String) (line : String) : Case × List String :=
     (match splitBar r with
      | [ft, v] => ({ c with leaves := { off := natOf off, ty := ftyOf ft, val := valOf v } :: c.leaves }, out)
      | _ => (c, out))
+  | "DESC" :: r =>
+    ({ c with desc := some (match parseDesc (r.length + 1) r with | some (d, []) => some d | _ => none) }, out)
+  | "DICT" :: r =>
+    ({ c with dict := some (match parseVal (r.length + 1) r with | some (v, []) => some v | _ => none) }, out)
+  | "FD" :: name :: h :: r =>
+    ({ c with probes := { name := name,
+                          impl := if h.startsWith "err" then none else some (if h == c.b0hex then c.b0 else hexBytes h),
+                          val := match parseVal (r.length + 1) r with | some (v, []) => some v | _ => none } :: c.probes }, out)
   | ["B0", h] => ({ c with b0 := hexBytes h, b0hex := h }, out)
   -- (transport only: a blob whose text equals B0's text is B0's byte list; no need to parse it again)
   | ["BD", h] => ({ c with bd := if h.startsWith "err" then none else some (if h == c.b0hex then c.b0 else hexBytes h) }, out)
